@@ -100,8 +100,14 @@ impl<T: Ord> MemoryBoundedQueue<T> {
     pub fn push(&self, item: T, size_bytes: usize) -> Result<(), PushError> {
         let mut inner = self.inner.lock().unwrap();
 
-        // Wait while queue would be too full
-        while inner.current_size + size_bytes > self.capacity_bytes && !inner.closed {
+        // Wait while queue would be too full.
+        // An item larger than the whole capacity can never satisfy the size test, so it is
+        // admitted as soon as the queue is empty (C++ AGC's CBoundedPQueue likewise lets the
+        // cost overshoot instead of blocking); otherwise push() would wait forever.
+        while inner.current_size + size_bytes > self.capacity_bytes
+            && !inner.items.is_empty()
+            && !inner.closed
+        {
             #[cfg(ragc_verif)]
             crate::verif_hooks::queue_event(
                 "push-wait",
